@@ -1229,9 +1229,12 @@ func (h *histRun) checkQuiescent(final bool) {
 			if v.Prop == "C02" && v.DropT > 0 && rc.TargetPendingAt(v.RID, v.DropT) {
 				v.Sig += ".droppedWhilePending"
 			}
-			if h.hasNote("populate.deleted", c.CID, v.RID) || (v.Prop == "C02" && v.Sig == "dangling" && v.Holder != "" && h.hasNote("populate.deleted", c.CID, v.Holder)) {
+			if h.hasNote("populate.deleted", c.CID, v.RID) || (v.Prop == "C02" && v.Sig == "dangling" && v.Holder != "" && h.hasNote("populate.deleted", c.CID, v.Holder)) ||
+				(v.Prop == "C02" && h.driftTag[c.CID+" "+v.RID] == ".populateDeleted") {
 				// finding C: the resource, or the holder whose dead snapshot
-				// names it, was revived after its delete event
+				// names it, was revived after its delete event; or its sent
+				// counter is known to be off because a revived subscription
+				// counted its references a second time
 				v.Sig += ".populateDeleted"
 			}
 			h.viol(v)
